@@ -2099,7 +2099,7 @@ class binary(base_quantizer.BaseQuantizer):  # pylint: disable=invalid-name
       k_sign += (1.0 - tf.abs(k_sign)) * tf_utils.smart_cond(
           K.learning_phase(),
           lambda: 2.0 * tf.round(tf.random.uniform(tf.shape(x))) - 1.0,
-          lambda: tf.ones_like(tf.shape(x), dtype=K.floatx()))
+          lambda: tf.ones_like(x, dtype=K.floatx()))
       # if something still remains, just make it positive for now.
     k_sign += (1.0 - tf.abs(k_sign))
     if self.use_01:
